@@ -55,7 +55,7 @@ def gen_jobs(tier):
         j += [(256, lo, hi, 2, 1) for lo, hi in ((0, 0), (63, 64), (127, 128), (254, 256))]
     else:
         j = [(32, lo, lo + 3, 8, 3) for lo in range(0, 40, 4)] + [(32, 60, 70, 8, 3)]
-        j += [(256, lo, hi, 8, 3) for lo, hi in ((0, 3), (60, 63), (64, 67), (124, 127), (128, 131), (250, 254), (255, 260), (508, 514))]
+        j += [(256, lo, hi, 5, 2) for lo, hi in ((0, 1), (62, 63), (64, 65), (126, 127), (128, 129), (252, 254), (255, 258))]
     return j
 
 
@@ -97,7 +97,7 @@ def run_check(tier):
     chk.cov["generated_streams"] = len(rows)
     # stream kinds: stringstream everywhere; short-read stream buffers on a seeded subset
     extra = []
-    for r in uc.pick(rows, 60 if tier == "quick" else 1500):
+    for r in uc.pick(rows, 60 if tier == "quick" else 300):
         for kind in ("short1", "short7"):
             e = dict(r)
             e["kind"] = kind
@@ -118,7 +118,7 @@ def run_check(tier):
         lines += [l for l in p.stdout.splitlines() if l.strip()]
     # the verification hook BITSERIALIZER_VERIF_ENC_CHUNK_SIZE: default template argument = 32
     exe32 = build("encstream_harness_hook32", ["encstream_harness.cpp"], groups=(), defines=["BITSERIALIZER_VERIF_ENC_CHUNK_SIZE=32"])
-    hook = [dict(r, id=r["id"] + "hook") for r in uc.pick([r for r in rows if r["C"] == 32], 60 if tier == "quick" else 1500)]
+    hook = [dict(r, id=r["id"] + "hook") for r in uc.pick([r for r in rows if r["C"] == 32], 60 if tier == "quick" else 300)]
     hscn = os.path.join(vlib.scratch(), "c13-hook.ndjson")
     vlib.write_ndjson(hscn, hook)
     p = vlib.run([exe32, "read", hscn], timeout=900, check=False)
